@@ -109,7 +109,7 @@ func (g *gen) scalarText(sc string, ok bool) string {
 	case "u32", "u64", "uint":
 		return strconv.Itoa(r.Intn(3000000))
 	case "f32", "f64":
-		return []string{"1.5", "-2", "0", "1e3", "3.14159", "inf", "-0", "1e-7", ".5", "0x1p-2"}[r.Intn(10)]
+		return []string{"1.5", "-2", "0", "1e3", "3.14159", "inf", "-0", "1e-7", ".5", "0x1p-2", "1e39", "-3.5e38", "3.4028235e38", "1e-46", "16777217", "NaN", "1e400", "0.1"}[r.Intn(18)]
 	case "dur":
 		return []string{"3s", "1h2m", "0", "150ms", "-2m", "1.5h"}[r.Intn(6)]
 	}
